@@ -198,6 +198,10 @@ class GopherEntry:
             if blockname in self.ea:
                 continue
             try:
+                if not vfs.isfile(selector + extension):
+                    # Nothing there - or something that is not a regular file:
+                    # opening a FIFO would block the request for ever.
+                    continue
                 with vfs.open(
                     selector + extension, "r", errors="surrogateescape"
                 ) as rfile:
